@@ -470,29 +470,66 @@ CODEGEN_SCENARIO = {"kind": "codegen-scenario", "name": "Tank", "template": MODE
                     "o1": {"codegen": True}, "o2": {"codegen": True, "replace_parameter_values": True}}
 
 
-def run_codegen_scenario(ctx, sc):
-    """transfer(o1) completes; transfer(o2) is killed after its shared libraries are written and before the
-    cache file is opened; transfer(o1) again.  Three processes (dlopen caches).  Returns (tag, why, results)."""
+ALL_ROUNDS = [[1, "orig"], [3, "orig"], [2, "orig"], [2, "new"], [1, "new"], [3, "new"], [4, "orig"]]
+LIGHT_ROUNDS = [[1, "orig"], [3, "new"], [4, "orig"]]
+
+
+def run_codegen_scenario(ctx, sc, rounds=None):
+    """transfer(o1) completes.  Then per round [k, cont]: a transfer with the OTHER option set is killed after k of
+    the four libraries (k = 4: at the open of the cache file); then a transfer with the current ("orig") or the
+    other ("new") option set is judged against a fresh compile.  Every step in its own process (dlopen caches).
+    Stops at the first violation.  Returns (tag, why, trace); trace = [[step, opts id, k, result], ...]."""
     import tempfile
+    rounds = rounds if rounds is not None else sc.get("rounds") or [[4, "orig"]]
     d = tempfile.mkdtemp(prefix="cg_", dir=ctx.tmp)
-    res = []
-    for ph in (1, 2, 3):
-        c = {"kind": "codegen", "phase": ph, "dir": d, "name": sc["name"], "template": sc["template"],
-             "o1": sc["o1"], "o2": sc["o2"]}
-        res.append(core.run_child(ctx, "c21", [c], timeout=900)[0])
-    r = res[2]
-    if res[0].get("out") != "Model" or res[1].get("out") != "Died":
-        return "harness:codegen", "scenario could not be set up: %s" % json.dumps(res[:2])[:300], res
-    if r.get("out") == "Raised":
-        return "codegen:raised:%s" % r.get("exc"), "transfer_model raised %s after a codegen write was interrupted between the libraries and the cache file" % r.get("exc"), res
-    if r.get("out") in ("Loaded", "Recompiled") and not r.get("sig_ok"):
-        return ("codegen:stale-cache-new-libs",
-                "codegen mode: after a write for options o2 was interrupted between the shared libraries and the cache file, "
-                "transfer_model(o1) served (%s) the old cache file with the NEW libraries: residual %s, fresh compile %s"
-                % (r["out"], json.dumps(r.get("sig"))[:120], json.dumps(r.get("ref"))[:120]), res)
-    if r.get("out") not in ("Loaded", "Recompiled"):
-        return "harness:codegen", json.dumps(r)[:300], res
-    return None, None, res
+    opts = {1: sc["o1"], 2: sc["o2"]}
+
+    def step(phase, oid, k=None):
+        c = {"kind": "codegen", "phase": phase, "dir": d, "name": sc["name"], "template": sc["template"],
+             "opts": opts[oid], "k": k}
+        return core.run_child(ctx, "c21", [c], timeout=900)[0]
+    trace = []
+    cur = 1
+    r = step("complete", cur)
+    trace.append(["complete", cur, None, r])
+    if r.get("out") != "Model":
+        return "harness:codegen", "scenario could not be set up: %s" % json.dumps(r)[:300], trace
+    for k, cont in rounds:
+        other = 3 - cur
+        r = step("kill", other, k)
+        trace.append(["kill", other, k, r])
+        if r.get("out") != "Died":
+            return "harness:codegen", "kill step did not die: %s" % json.dumps(r)[:300], trace
+        oid = cur if cont == "orig" else other
+        r = step("check", oid)
+        trace.append(["check", oid, None, r])
+        what = ("codegen mode: a save for options o%d was killed after %s; then transfer_model(o%d, the %s options)"
+                % (other, "%d of the 4 libraries" % k if k < 4 else "the libraries, at the open of the cache file", oid,
+                   "previous" if cont == "orig" else "same new"))
+        if r.get("out") == "Raised":
+            return "codegen:raised:%s" % r.get("exc"), "%s raised %s: %s" % (what, r.get("exc"), r.get("msg")), trace
+        if r.get("out") not in ("Loaded", "Recompiled"):
+            return "harness:codegen", json.dumps(r)[:300], trace
+        if not r.get("sig_ok"):
+            return ("codegen:stale-cache-new-libs",
+                    "%s served (%s) a cache file with libraries of another option set: residual %s, fresh compile %s"
+                    % (what, r["out"], json.dumps(r.get("sig"))[:120], json.dumps(r.get("ref"))[:120]), trace)
+        cur = oid
+    return None, None, trace
+
+
+def encode_cg(trace, remove_first):
+    """the scenario as a history of Model Part 4 (kill after k libraries = 1 + k steps when the cache file is
+    removed first, else k)"""
+    ops, obs = [], []
+    for kind, oid, k, r in trace:
+        if kind == "kill":
+            ops.append("CCrashT %s true %s" % (cq_nat(oid), cq_nat(k + 1 if remove_first else k)))
+            obs.append("[ODied]")
+        else:
+            ops.append("CTransfer %s true" % cq_nat(oid))
+            obs.append("[%s]" % OBS.get("Recompiled" if r.get("out") == "Model" else r.get("out"), "ORaised"))
+    return "(%s, %s)" % (cq_list(ops), cq_list(obs))
 
 
 O_PLAIN = {"cache": True}
@@ -718,15 +755,14 @@ def run(ctx):
     # ---- codegen mode: three gcc builds; thorough, or when the order side condition is broken --------------
     cg_broken = any(n.startswith("tie:codegen") for n in ctx.broken)
     if ctx.tier == "thorough" or cg_broken:
-        tag, why, cres = run_codegen_scenario(ctx, CODEGEN_SCENARIO)
-        ctx.notes["codegen_scenario"] = {"tag": tag, "results": cres}
+        rounds = ALL_ROUNDS if cg_broken else LIGHT_ROUNDS
+        tag, why, trace = run_codegen_scenario(ctx, CODEGEN_SCENARIO, rounds)
+        ctx.notes["codegen_scenario"] = {"tag": tag, "trace": trace}
         if tag:
-            core.report(ctx, tag, why, {"input": CODEGEN_SCENARIO, "observed": cres[-1]})
+            done = sum(1 for t in trace if t[0] == "kill")
+            core.report(ctx, tag, why, {"input": dict(CODEGEN_SCENARIO, rounds=rounds[:done]), "observed": trace[-1][3]})
         if not (tag or "").startswith("harness"):
-            # correspondence with Model Part 4 on the extracted order: killed after [remove;] four libraries
-            j = 5 if tables.get("cg_remove_first") else 4
-            enc = "([CTransfer 1%%nat true; CCrashT 2%%nat true %d%%nat; CTransfer 1%%nat true], [[ORecompiled]; [ODied]; [%s]])" % (
-                j, OBS.get(cres[2].get("out"), "ORaised"))
+            enc = encode_cg(trace, bool(tables.get("cg_remove_first")))
             bad = core.coq_eval_cases(ctx, "cg", PREAMBLE, "list cop * list (list obs)", [enc], "check_cg_case cg_remove_first tbl")
             ctx.oblige("correspondence:codegen-model-vs-transfer_model", bad == [], "scenario %s" % enc)
 
@@ -778,7 +814,7 @@ def replay(ctx, path):
         print("replay:", ("VIOLATED [%s] %s" % (tag, why)) if tag else "property holds on the torn-file scenario")
         return 1 if tag else 0
     if case.get("kind") == "codegen-scenario":
-        tag, why, _r = run_codegen_scenario(ctx, case)
+        tag, why, _r = run_codegen_scenario(ctx, case)      # rounds from the replay file (default: kill at the cache open)
         print("replay:", ("VIOLATED [%s] %s" % (tag, why)) if tag else "property holds on the codegen scenario")
         return 1 if tag else 0
     res = core.run_child(ctx, "c21", [case])[0]
